@@ -166,8 +166,7 @@ func verifC31Exec(op string) string {
 			rel, _ := filepath.Rel(verifC31Root, s.Fpath)
 			l = append(l, fmt.Sprintf("%s@%d", verifutil.HexS(rel), s.Start.UnixMicro()))
 		}
-		sort.Strings(l)
-		return strings.Join(l, ",")
+		return strings.Join(l, ",") // in the order FindSegments returns them
 	case "at":
 		// at <zone> <fmtHex> <nameHex> <queryUs> <files> | <cal table>: FindSegments with a start bound (playback get/list)
 		verifC31SetLocal(f[1])
@@ -272,6 +271,8 @@ func verifC31Exec(op string) string {
 var verifC31Formats = []string{
 	"recordings/%path/%Y-%m-%d_%H-%M-%S-%f", "recordings/%path/%Y-%m-%d_%H-%M-%S", "recordings/%path/%s", "recordings/%path/%s-%f",
 	"recordings/%path/%Y-%m-%d_%H-%M-%S-%f_%z", "./rec/%path_%Y%m%d%H%M%S", "recordings/%path/%s_%H-%M", "/tmp/vc31t/abs/%path/%Y-%m-%d/%H-%M-%S-%f",
+	// file names whose lexical order is not the order of the instants
+	"recordings/%path/%d-%m-%Y_%H-%M-%S-%f", "recordings/%path/%H-%M-%S_%Y-%m-%d", "recordings/%path/%Y-%m-%d_%H-%M-%S_%z",
 }
 
 func verifC31Fields(t time.Time) string {
@@ -307,6 +308,29 @@ func verifC31Gen(r *verifutil.Rand, i int, thorough bool) []string {
 			base = end.Unix() + int64(r.Intn(4*3600)) - 2*3600
 		}
 	}
+	// with %z in the name the repeated hour at the end of DST is representable: 02:30+0200 is earlier than
+	// 02:10+0100 but sorts after it
+	hasZ := strings.Contains(format, "%z")
+	var fallBack int64
+	if hasZ && r.Chance(2, 3) {
+		t := time.Unix(base, 0).In(time.Local)
+		for k := 0; k < 4; k++ {
+			_, end := t.ZoneBounds()
+			if end.IsZero() {
+				break
+			}
+			_, o1 := end.Add(-time.Second).Zone()
+			_, o2 := end.Zone()
+			if o2 < o1 {
+				fallBack = end.Unix()
+				break
+			}
+			t = end.Add(time.Second)
+		}
+		if fallBack != 0 {
+			base = fallBack - 1800
+		}
+	}
 	// the offset the request will be written with
 	_, localOff := time.Unix(base, 0).In(time.Local).Zone()
 	var wOff int
@@ -338,6 +362,12 @@ func verifC31Gen(r *verifutil.Rand, i int, thorough bool) []string {
 	for k := r.Intn(3); k > 0; k-- {
 		starts = append(starts, starts[0]+int64(r.Intn(20000)-10000)*1000000+int64(r.Intn(1000000)))
 	}
+	if fallBack != 0 {
+		starts = append(starts, (fallBack+600)*1000000+us, (fallBack-3000)*1000000+us, (fallBack+2400)*1000000+us)
+	}
+	if r.Chance(1, 2) { // days / weeks apart (day-first and time-first layouts)
+		starts = append(starts, starts[0]+int64(r.Intn(40*86400)-20*86400)*1000000, starts[0]-int64(1+r.Intn(30))*86400*1000000+int64(r.Intn(80000))*1000000)
+	}
 	cal := map[string]struct{}{}
 	type seg struct {
 		rel string
@@ -348,7 +378,7 @@ func verifC31Gen(r *verifutil.Rand, i int, thorough bool) []string {
 	for _, s := range starts {
 		t := time.UnixMicro(s).In(time.Local)
 		// skip instants whose local wall clock is ambiguous (end of DST): the file name cannot identify them
-		if verifC31Ambiguous(t) || !time.Date(t.Year(), t.Month(), t.Day(), t.Hour(), t.Minute(), t.Second(), t.Nanosecond(), time.Local).Equal(t) {
+		if !hasZ && (verifC31Ambiguous(t) || !time.Date(t.Year(), t.Month(), t.Day(), t.Hour(), t.Minute(), t.Second(), t.Nanosecond(), time.Local).Equal(t)) {
 			continue
 		}
 		p := recordstore.Path{Start: t}.Encode(strings.ReplaceAll(format, "%path", name)) + ".mp4"
@@ -440,7 +470,7 @@ func verifC31Gen(r *verifutil.Rand, i int, thorough bool) []string {
 		targets = append(targets, starts[1])
 	}
 	for _, tg := range targets {
-		if verifC31Ambiguous(time.UnixMicro(tg)) {
+		if !hasZ && verifC31Ambiguous(time.UnixMicro(tg)) {
 			continue
 		}
 		tw := time.UnixMicro(tg).In(time.FixedZone("w", wOff))
